@@ -991,6 +991,8 @@ def oracle(ctx: C.Ctx, cov: C.Coverage, n: Optional[int] = None, seed: Optional[
         add(f)
     for f in entity_probe():
         add(f)
+    for f in eds_shared_reference_probe():
+        add(f)
     return out
 
 
@@ -1067,6 +1069,30 @@ def unordered_list_probe() -> Optional[C.Failing]:
     return None
 
 
+def eds_shared_reference_probe() -> List[C.Failing]:
+    """(round 8, named by a seeding agent) embedded data specifications are matched by their data specification reference, which
+    need not be unique in one list: the keyed matching then compares the wrong members (Lean witness
+    c20_shared_key_identical_fails_differing_passes)."""
+    from basyx.aas import model
+
+    def ref(s):
+        return model.ExternalReference((model.Key(model.KeyTypes.GLOBAL_REFERENCE, s),))
+
+    def sm(names):
+        return model.Submodel("urn:sm", embedded_data_specifications=[model.EmbeddedDataSpecification(
+            ref("urn:d"), model.DataSpecificationIEC61360(model.PreferredNameTypeIEC61360({"en": n}))) for n in names])
+    out = []
+    r = real_verdict(sm(["a", "b"]), sm(["a", "b"]))
+    if r is not True:
+        out.append(C.Failing("checker:eds-shared-reference:identical-files-differ", "two identical submodels whose two embedded data specifications share "
+                             f"one data specification reference: verdict {r}", {"probe": "eds-shared-reference", "which": "identical"}, r, True))
+    r = real_verdict(sm(["a", "b"]), sm(["a", "a"]))
+    if r is not False:
+        out.append(C.Failing("checker:eds-shared-reference:differing-files-equal", "submodels whose second embedded data specification differs (both share one "
+                             f"data specification reference) compare as equal: verdict {r}", {"probe": "eds-shared-reference", "which": "differing"}, r, False))
+    return out
+
+
 def search(ctx: C.Ctx, disagreements, broken) -> List[C.Failing]:
     """directed: EVERY mutated pair of the correspondence (the oracle takes the files of the first ones only) on which the data
     checker itself finds no difference is taken to the tool as two files; then the oracle with another seed"""
@@ -1098,6 +1124,8 @@ def search(ctx: C.Ctx, disagreements, broken) -> List[C.Failing]:
 def replay(case) -> Optional[C.Failing]:
     if case.get("probe") == "unordered-list":
         return unordered_list_probe()
+    if case.get("probe") == "eds-shared-reference":
+        return next((f for f in eds_shared_reference_probe() if f.case == case), None)
     if "statuses" in case:
         return check_overall(case["statuses"])
     if "entity_probe" in case:
